@@ -358,6 +358,48 @@ def main():
         return TR.plain_session(app) if rng.random() < 0.5 else (None, Recorder(app))
     nh = run_histories(r, rng, T, some_transport, direct, req_cases)
     r.extra["histories"] = nh
+    # ---- a dataset WITHOUT any sequence (arrays and a grid only): read histories on one long-lived application - every read returns
+    # the numpy selection of the source, whatever was read before
+    import numpy as np
+    from pydap.client import open_url
+    from pydap.handlers.lib import BaseHandler
+    from pydap.model import BaseType, DatasetType, GridType
+    src_x = np.arange(24, dtype="i4").reshape(4, 6)
+    src_v = np.arange(6, dtype="f8").reshape(2, 3)
+    n_arr = 0
+    for ai in range(6 if T == "quick" else 60):
+        ds2 = DatasetType("d2")
+        ds2["x"] = BaseType("x", src_x.copy())
+        g2 = GridType("g")
+        g2["v"] = BaseType("v", src_v.copy(), dims=("m0", "m1"))
+        g2["m0"] = BaseType("m0", np.array([10.0, 20.0]))
+        g2["m1"] = BaseType("m1", np.array([1.0, 2.0, 3.0]))
+        ds2["g"] = g2
+        app2 = BaseHandler(ds2, gzip=ai % 2 == 1)
+        c2 = open_url("http://localhost:8001/d2", application=app2, output_grid=False)
+        reads = [(slice(0, 2), slice(1, 3)), (slice(None),), (1,), (Ellipsis, slice(None, None, 2)), (slice(2, None), slice(0, 1)),
+                 (slice(None), slice(None))]
+        if ai >= 2:
+            rng.shuffle(reads)
+        for k_, idx in enumerate(reads):
+            n_arr += 1
+            r.count(("arrays-only", ai, k_, repr(idx)))
+            try:
+                gx = np.asarray(c2["x"].data[idx if len(idx) > 1 else idx[0]])
+                wx = src_x[tuple(slice(i_, i_ + 1) if isinstance(i_, int) else i_ for i_ in idx)]
+                iv = idx if len(idx) <= 2 and all(not isinstance(i_, int) or i_ < 2 for i_ in idx) else (slice(None),)
+                gv = np.asarray(c2["g"][iv if len(iv) > 1 else iv[0]].data)
+                wv = src_v[tuple(slice(i_, i_ + 1) if isinstance(i_, int) else i_ for i_ in iv)]
+                if gx.shape != wx.shape or not np.array_equal(gx, wx) or gv.reshape(-1).tolist() != wv.reshape(-1).tolist():
+                    direct.append({"law": "a read of an array / grid of a dataset without sequences returns the numpy selection of the source, "
+                                          "whatever was read before on the same application", "history": [repr(x_) for x_ in reads[:k_ + 1]],
+                                   "got_x": gx.tolist(), "want_x": wx.tolist(), "got_v": gv.tolist(), "want_v": wv.tolist()})
+                    break
+            except Exception as e:  # noqa
+                direct.append({"law": "a read of an array / grid of a dataset without sequences is answered", "index": repr(idx),
+                               "history": [repr(x_) for x_ in reads[:k_ + 1]], "error": repr(e)[:200]})
+                break
+    r.extra["array_only_reads"] = n_arr
     try:
         bad = coq_eval_mismatches(PID + "_req", IMPORTS, "chk_request", req_cases,
                                   "list cname * list pop * option (list cname * slice * list (cname * relop * operand))", shard=200)
